@@ -11,6 +11,7 @@ this one makes no choice of idiom, so that combinations nobody thought of appear
   column  := num | seq_num | seq_obj.Select(lambda o: seq_num)
   int   := 0..3 | i | o.nTrk() | o.charge() | seq.Count() | (int + int)
   seq_num |= Range(int, int + span) [.Select(lambda i: num) | .Where(lambda i: bool)]      span := 0..3 | seq.Count()
+  num   |= seq2d.Count() | seq2d.Aggregate(seed, f)      seq2d := seq_obj.Select(lambda o: seq_num)      seq_num |= seq2d.First()
   num   |= o.cvals()[int] | e.Coll(bank)[int].m() | o.subs()[int].m()          (indexing: a loud fault past the end)
 
 The environment knows which variables are in scope: the event `e` (inside an event lambda), objects, numbers.
@@ -61,7 +62,7 @@ class G2:
             if env["e"] or env["objs"]:
                 opts += [("index_obj", 1)]
             if env["e"] or env["objs"]:
-                opts += [("agg", 4), ("count", 3), ("first_obj", 2), ("first_num", 1)]
+                opts += [("agg", 4), ("count", 3), ("first_obj", 2), ("first_num", 1), ("count2d", 1)]
         k = qgen.weighted_choice(r, opts)
         if k == "const":
             return r.choice(FLOATS)
@@ -120,6 +121,9 @@ class G2:
             c = self.boolean(env, d - 1)
             self.uncond = False
             a, b2 = self.num(env, d - 1), self.num(env, d - 1)
+            if r.random() < 0.3:
+                # a ladder: the else arm is a conditional itself
+                b2 = f"{b2} if {self.boolean(env, max(0, d - 2))} else {self.num(env, 0)}"
             self.uncond = was
             return f"({a} if {c} else {b2})"
         if k == "agg":
@@ -132,6 +136,13 @@ class G2:
             return f"{s}.{agg}()"
         if k == "count":
             return f"{self.seq_obj(env, d - 1)[0]}.Count()"
+        if k == "count2d":
+            # an aggregate over a sequence of sequences: it counts / folds the OUTER elements
+            s2 = self.seq2d(env, d - 1)
+            if r.random() < 0.7:
+                return f"{s2}.Count()"
+            a, v = self.var("a"), self.var("x")
+            return f"{s2}.Aggregate({r.choice(['0', '0.0', '1'])}, lambda {a}, {v}: {a} + {r.choice(['1', '2.0', v + '.Count()'])})"
         if k == "first_obj":
             s, et = self.seq_obj(env, d - 1)
             return f"{s}.First().{r.choice(qgen.DOUBLE_METHODS)}()"
@@ -255,7 +266,11 @@ class G2:
             return f"pair_vec({self._pv(env)})" if r.random() < 0.5 else self.range_(env, 0)
         if d > 0:
             opts += [("where", 2), ("select_num", 2), ("selectmany", 1), ("pair_vec", 1), ("range", 2), ("range_select", 2), ("range_where", 1)]
+            if env["e"] or env["objs"]:
+                opts.append(("first_of_2d", 1))
         k = qgen.weighted_choice(r, opts)
+        if k == "first_of_2d":
+            return f"{self.seq2d(env, d - 1)}.First()"
         if k == "range":
             return self.range_(env, d - 1)
         if k in ("range_select", "range_where"):
@@ -295,6 +310,15 @@ class G2:
             self.uncond = was
             return f"{s}.SelectMany(lambda {v}: {inner})"
         return f"pair_vec({self._pv(env)})"
+
+    def seq2d(self, env, d):
+        s, et = self.seq_obj(env, max(0, d))
+        v = self.var("sub" if ".subs()" in s else "o")
+        was = self.uncond
+        self.uncond = False
+        inner = self.seq_num(self.push_obj(env, v, et), max(0, d))
+        self.uncond = was
+        return f"{s}.Select(lambda {v}: {inner})"
 
     def _pv(self, env):
         self.use_func("pair_vec")
